@@ -140,6 +140,24 @@ pub fn tracker_body(step: &TrackerStep, plan: &Plan) -> (TrackerOutcome, String)
             let body = B::Dict(vec![(b"failure reason".to_vec(), B::s(r))]).encode();
             (TrackerOutcome::Http(200, body), "Failure".into())
         }
+        TrackerStep::FailureWithPeers(r) => {
+            let decoys: Vec<B> = (0..3)
+                .map(|k| {
+                    B::Dict(vec![
+                        (b"ip".to_vec(), B::s(&format!("10.77.0.{}", k + 1))),
+                        (b"peer id".to_vec(), B::s("-DECOY0-000000000000")),
+                        (b"port".to_vec(), B::Int(7700 + k)),
+                    ])
+                })
+                .collect();
+            let body = B::Dict(vec![
+                (b"failure reason".to_vec(), B::s(r)),
+                (b"interval".to_vec(), B::Int(1800)),
+                (b"peers".to_vec(), B::List(decoys)),
+            ])
+            .encode();
+            (TrackerOutcome::Http(200, body), "FailureWithPeers".into())
+        }
         TrackerStep::NoPeers => {
             let body = B::Dict(vec![(b"interval".to_vec(), B::Int(1800))]).encode();
             (TrackerOutcome::Http(200, body), "NoPeers".into())
